@@ -22,15 +22,15 @@ type PanicSite struct {
 
 // Functions documented to panic on some inputs (DESIGN appendix A.7).
 var extPanics = map[string]string{
-	"(github.com/opencontainers/go-digest.Digest).Algorithm": "panics if the digest has no ':' separator",
-	"(github.com/opencontainers/go-digest.Digest).Encoded":   "panics if the digest has no ':' separator",
-	"(github.com/opencontainers/go-digest.Digest).Hex":       "panics if the digest has no ':' separator",
-	"(github.com/opencontainers/go-digest.Digest).Verifier":  "panics on an unavailable algorithm",
-	"(github.com/opencontainers/go-digest.Algorithm).Hash":   "panics on an unavailable algorithm",
+	"(github.com/opencontainers/go-digest.Digest).Algorithm":   "panics if the digest has no ':' separator",
+	"(github.com/opencontainers/go-digest.Digest).Encoded":     "panics if the digest has no ':' separator",
+	"(github.com/opencontainers/go-digest.Digest).Hex":         "panics if the digest has no ':' separator",
+	"(github.com/opencontainers/go-digest.Digest).Verifier":    "panics on an unavailable algorithm",
+	"(github.com/opencontainers/go-digest.Algorithm).Hash":     "panics on an unavailable algorithm",
 	"(github.com/opencontainers/go-digest.Algorithm).Digester": "panics on an unavailable algorithm",
 	"regexp.MustCompile": "panics on an invalid pattern",
 	"(*cuelabs.dev/go/oci/ociregistry/internal/ocirequest.Request).MustConstruct": "panics if the request cannot be constructed",
-	"(cuelabs.dev/go/oci/ociregistry/ociauth.Scope).Len":                         "panics on the unlimited scope",
+	"(cuelabs.dev/go/oci/ociregistry/ociauth.Scope).Len":                          "panics on the unlimited scope",
 }
 
 // PanicSites enumerates the panic-capable constructs of fn and tries the
